@@ -245,6 +245,10 @@ func rndMixDoc(rng *rand.Rand, di int) jx.Obj {
 		if gen.Chance(rng, 20) {
 			d["security"] = append(jx.AsArr(d["security"]), jx.Obj{})
 		}
+		if gen.Chance(rng, 40) {
+			// a requirement combining several schemes (a superset of single-scheme requirements elsewhere)
+			d["security"] = append(jx.AsArr(d["security"]), jx.Obj{ks[0]: jx.Arr{"scope"}, "extra": jx.Arr{}})
+		}
 	}
 	for _, sec := range []string{"definitions", "parameters", "responses", "securityDefinitions"} {
 		if ks := pick([]string{"A", "B", "C", "D", "E"}); len(ks) > 0 {
@@ -322,7 +326,14 @@ func (e mixinEngine) Gen(prop, tier string, seed uint64, idx int) *runner.Case {
 		for i := 0; i <= nm; i++ {
 			d := jx.Obj{"swagger": "2.0"}
 			putKeys(d, sec, keys[i], i)
+			if sec == "security" && pat == "several" && i > 0 {
+				// supersets of requirements present earlier, and the empty requirement
+				d["security"] = append(jx.AsArr(d["security"]), jx.Obj{"kp": jx.Arr{"scope"}, "k1": jx.Arr{"scope"}}, jx.Obj{})
+			}
 			docs = append(docs, d)
+		}
+		if sec == "security" && pat == "one" && mmOnly {
+			docs[0]["security"] = append(jx.AsArr(docs[0]["security"]), jx.Obj{})
 		}
 	case idx < mixPresence+mixOverlap+mixIDs:
 		k := idx - mixPresence - mixOverlap
